@@ -343,76 +343,11 @@ func (tb *Table) Bin(op Op, a, b *Term) *Term {
 	s := a.Sort
 	w := uint(s)
 	if a.IsConst() && b.IsConst() {
-		x, y := a.Val, b.Val
-		switch op {
-		case OpAdd:
-			return tb.Const(s, x+y)
-		case OpSub:
-			return tb.Const(s, x-y)
-		case OpMul:
-			return tb.Const(s, x*y)
-		case OpUDiv:
-			if y == 0 {
-				return tb.Const(s, mask(s))
-			}
-			return tb.Const(s, x/y)
-		case OpURem:
-			if y == 0 {
-				return tb.Const(s, x)
-			}
-			return tb.Const(s, x%y)
-		case OpSDiv:
-			sx, sy := sval(x, s), sval(y, s)
-			if sy == 0 {
-				if sx < 0 {
-					return tb.Const(s, 1)
-				}
-				return tb.Const(s, mask(s))
-			}
-			if sy == -1 {
-				return tb.Const(s, uint64(-sx))
-			}
-			return tb.Const(s, uint64(sx/sy))
-		case OpSRem:
-			sx, sy := sval(x, s), sval(y, s)
-			if sy == 0 {
-				return tb.Const(s, x)
-			}
-			if sy == -1 {
-				return tb.Const(s, 0)
-			}
-			return tb.Const(s, uint64(sx%sy))
-		case OpBAnd:
-			return tb.Const(s, x&y)
-		case OpBOr:
-			return tb.Const(s, x|y)
-		case OpBXor:
-			return tb.Const(s, x^y)
-		case OpShl:
-			if y >= uint64(w) {
-				return tb.Const(s, 0)
-			}
-			return tb.Const(s, x<<y)
-		case OpLShr:
-			if y >= uint64(w) {
-				return tb.Const(s, 0)
-			}
-			return tb.Const(s, x>>y)
-		case OpAShr:
-			sx := sval(x, s)
-			if y >= uint64(w) {
-				y = uint64(w) - 1
-			}
-			return tb.Const(s, uint64(sx>>y))
-		case OpULt:
-			return tb.BoolC(x < y)
-		case OpULe:
-			return tb.BoolC(x <= y)
-		case OpSLt:
-			return tb.BoolC(sval(x, s) < sval(y, s))
-		case OpSLe:
-			return tb.BoolC(sval(x, s) <= sval(y, s))
+		v, isBool := foldConst(op, s, a.Val, b.Val)
+		if isBool {
+			return tb.BoolC(v == 1)
 		}
+		return tb.Const(s, v)
 	}
 	rs := s
 	switch op {
@@ -882,11 +817,7 @@ func (tb *Table) Eval(t *Term, env map[string]uint64, memo map[*Term]uint64) uin
 	default:
 		x := tb.Eval(t.A[0], env, memo)
 		y := tb.Eval(t.A[1], env, memo)
-		foldMu.Lock()
-		a := foldTable.Const(t.A[0].Sort, x)
-		b := foldTable.Const(t.A[1].Sort, y)
-		r = foldTable.Bin(t.Op, a, b).Val
-		foldMu.Unlock()
+		r, _ = foldConst(t.Op, t.A[0].Sort, x, y)
 	}
 	memo[t] = r
 	return r
@@ -988,4 +919,86 @@ func (t *Term) UB() uint64 {
 	}
 	t.ub, t.ubOK = r, true
 	return r
+}
+
+// foldConst evaluates a binary operator on constants (SMT-LIB semantics); isBool for comparisons.
+func foldConst(op Op, s Sort, x, y uint64) (uint64, bool) {
+	w := uint(s)
+	m := mask(s)
+	b2u := func(b bool) uint64 {
+		if b {
+			return 1
+		}
+		return 0
+	}
+	switch op {
+	case OpAdd:
+		return (x + y) & m, false
+	case OpSub:
+		return (x - y) & m, false
+	case OpMul:
+		return (x * y) & m, false
+	case OpUDiv:
+		if y == 0 {
+			return m, false
+		}
+		return (x / y) & m, false
+	case OpURem:
+		if y == 0 {
+			return x, false
+		}
+		return (x % y) & m, false
+	case OpSDiv:
+		sx, sy := sval(x, s), sval(y, s)
+		if sy == 0 {
+			if sx < 0 {
+				return 1, false
+			}
+			return m, false
+		}
+		if sy == -1 {
+			return uint64(-sx) & m, false
+		}
+		return uint64(sx/sy) & m, false
+	case OpSRem:
+		sx, sy := sval(x, s), sval(y, s)
+		if sy == 0 {
+			return x, false
+		}
+		if sy == -1 {
+			return 0, false
+		}
+		return uint64(sx%sy) & m, false
+	case OpBAnd:
+		return x & y, false
+	case OpBOr:
+		return x | y, false
+	case OpBXor:
+		return x ^ y, false
+	case OpShl:
+		if y >= uint64(w) {
+			return 0, false
+		}
+		return (x << y) & m, false
+	case OpLShr:
+		if y >= uint64(w) {
+			return 0, false
+		}
+		return (x >> y) & m, false
+	case OpAShr:
+		sx := sval(x, s)
+		if y >= uint64(w) {
+			y = uint64(w) - 1
+		}
+		return uint64(sx>>y) & m, false
+	case OpULt:
+		return b2u(x < y), true
+	case OpULe:
+		return b2u(x <= y), true
+	case OpSLt:
+		return b2u(sval(x, s) < sval(y, s)), true
+	case OpSLe:
+		return b2u(sval(x, s) <= sval(y, s)), true
+	}
+	panic("foldConst: " + opNames[op])
 }
